@@ -142,6 +142,16 @@ def handle (op : String) (args : List String) : Option String :=
       match rest with
       | [hex] => (hexBytes? hex).map (plyClass h)
       | _ => none
+  | "c14.holds.readers_agree", _fmt :: _k :: rest =>
+      -- the same bytes through a family of io.Readers: (reader-name digest)*, true iff all digests are equal
+      match rest with
+      | _ :: d :: more =>
+        let rec go : List String → Option Bool
+          | [] => some true
+          | [_] => none
+          | _ :: d' :: r => (go r).map (fun b => b && d' == d)
+        (go more).map boolStr
+      | _ => none
   | "c14.holds.rejects_token_losing_cut", fmt :: _k :: rest => do
       -- a strict prefix (ASCII: cut at a token boundary) on which the implementation returned `implClass`:
       -- true iff that is the verdict of the model reader on the same bytes — an error whenever the theorems of
